@@ -14,7 +14,7 @@ import (
 
 // modelFixed selects the variant of the Lean parser model that corresponds to the tree:
 // "1" = length test includes uniformdh.Size (the repaired code), "0" = the code before the repair.
-const modelFixed = "0"
+const modelFixed = "1"
 
 func (e *env) padFor(padLen int) []byte {
 	return vlib.NewRng(e.seed*1000003 + uint64(padLen)*7919 + 11).Bytes(padLen)
